@@ -377,6 +377,17 @@ func driverRT(c *Ctx) {
 		ev["msg"] = projMsg(m)
 		c.emit(i, ev)
 		c.count("rt." + how)
+		if i%4 == 1 || how == "boundary" {
+			// a message derived from this complete (and just encoded) one: another session id, other system bytes -
+			// it has bytes of its own
+			m2 := m.SetSessionIDAndSystemBytes((m.SessionID()+1)%65536, []byte{byte(i), 2, 3, byte(i >> 8)})
+			ev2 := decodeEvent(m2.ToBytes())
+			ev2["ev"] = "rt"
+			ev2["how"] = how + "-derived"
+			ev2["msg"] = projMsg(m2)
+			c.emit(i, ev2)
+			c.count("rt.derived")
+		}
 	}
 }
 
@@ -663,18 +674,22 @@ func driverCorrupt(c *Ctx) {
 		}
 		// non-finite patterns written over float values, 8-bit characters over ASCII ones
 		for k := 14; k+6 <= len(base); k++ {
-			if base[k] == 0x91 && base[k+1] >= 4 && k+2+4 <= len(base) { // F4, one length byte
-				for _, pat := range [][]byte{{0x7F, 0x80, 0, 0}, {0x7F, 0x80, 0, 1}, {0x7F, 0xC0, 0, 0}, {0xFF, 0x80, 0, 0}, {0xFF, 0xFF, 0xFF, 0xFF}, {0x7F, 0x7F, 0xFF, 0xFF}} {
-					m := clone(base)
-					copy(m[k+2:], pat)
-					add("float-pattern", m)
+			if base[k] == 0x91 && base[k+1] >= 4 && k+2+int(base[k+1]) <= len(base) { // F4, one length byte: every value in turn
+				for at := 0; at+4 <= int(base[k+1]) && at < 16; at += 4 {
+					for _, pat := range [][]byte{{0x7F, 0x80, 0, 0}, {0x7F, 0x80, 0, 1}, {0x7F, 0xC0, 0, 0}, {0xFF, 0x80, 0, 0}, {0xFF, 0xFF, 0xFF, 0xFF}, {0x7F, 0x7F, 0xFF, 0xFF}} {
+						m := clone(base)
+						copy(m[k+2+at:], pat)
+						add("float-pattern", m)
+					}
 				}
 			}
-			if base[k] == 0x81 && base[k+1] >= 8 && k+2+8 <= len(base) { // F8
-				for _, pat := range [][]byte{{0x7F, 0xF0, 0, 0, 0, 0, 0, 0}, {0x7F, 0xF0, 0, 0, 0, 0, 0, 1}, {0x7F, 0xF8, 0, 0, 0, 0, 0, 0}, {0xFF, 0xF0, 0, 0, 0, 0, 0, 0}, {0x7F, 0xEF, 0xFF, 0xFF, 0xFF, 0xFF, 0xFF, 0xFF}} {
-					m := clone(base)
-					copy(m[k+2:], pat)
-					add("float-pattern", m)
+			if base[k] == 0x81 && base[k+1] >= 8 && k+2+int(base[k+1]) <= len(base) { // F8
+				for at := 0; at+8 <= int(base[k+1]) && at < 32; at += 8 {
+					for _, pat := range [][]byte{{0x7F, 0xF0, 0, 0, 0, 0, 0, 0}, {0x7F, 0xF0, 0, 0, 0, 0, 0, 1}, {0x7F, 0xF8, 0, 0, 0, 0, 0, 0}, {0xFF, 0xF0, 0, 0, 0, 0, 0, 0}, {0x7F, 0xEF, 0xFF, 0xFF, 0xFF, 0xFF, 0xFF, 0xFF}} {
+						m := clone(base)
+						copy(m[k+2+at:], pat)
+						add("float-pattern", m)
+					}
 				}
 			}
 		}
